@@ -210,8 +210,41 @@ def constructors_agree(j, cases):
 
 # ---- valuations: near 0 / near pi round trips, q vs -q, embeddings --------------------------------
 
+def angle_set_bridges(j):
+    """an angle set extracted from one representation and fed to the same named constructor of ANOTHER class gives
+    the same rotation - at the singular configurations of the angle set too (Euler middle angle 0 / pi, pitch +-90 deg)"""
+    from spatialmath import SO3, SE3, UnitQuaternion
+    hp = math.pi / 2
+    specials = {"eul-middle-pi": gamma.rotz(0.4) @ gamma.roty(math.pi) @ gamma.rotz(-1.1), "half-turn-x": gamma.rotx(math.pi),
+                "half-turn-xy-axis": gamma.rotz(0.7) @ gamma.rotx(math.pi) @ gamma.rotz(-0.7), "eul-middle-0": gamma.rotz(0.9),
+                "pitch+90": gamma.rotz(0.3) @ gamma.roty(hp) @ gamma.rotx(-0.5), "pitch-90": gamma.rotz(-1.2) @ gamma.roty(-hp) @ gamma.rotx(0.8),
+                "generic": gamma.rotz(0.3) @ gamma.roty(-0.5) @ gamma.rotx(1.1)}
+    for tag, R in specials.items():
+        T = np.eye(4)
+        T[:3, :3] = R
+        bridges = {"SO3.eul->UnitQuaternion.Eul": lambda: UnitQuaternion.Eul(SO3(R, check=False).eul()).R,
+                   "UnitQuaternion.eul->SE3.Eul": lambda: SE3.Eul(UnitQuaternion(SO3(R, check=False)).eul()).R,
+                   "SE3.eul(deg)->SO3.Eul(deg)": lambda: SO3.Eul(SE3(T, check=False).eul(unit="deg"), unit="deg").R,
+                   "SO3.rpy->UnitQuaternion.RPY": lambda: UnitQuaternion.RPY(SO3(R, check=False).rpy()).R,
+                   "UnitQuaternion.rpy(xyz)->SE3.RPY(xyz)": lambda: SE3.RPY(UnitQuaternion(SO3(R, check=False)).rpy(order="xyz"), order="xyz").R,
+                   "SE3.rpy(yxz,deg)->SO3.RPY(yxz,deg)": lambda: SO3.RPY(SE3(T, check=False).rpy(order="yxz", unit="deg"), order="yxz", unit="deg").R,
+                   "SO3.angvec->UnitQuaternion.AngVec": lambda: UnitQuaternion.AngVec(*SO3(R, check=False).angvec()).R}
+        for name, fn in bridges.items():
+            cid = ("bridge", name, tag)
+            try:
+                d = float(np.max(np.abs(np.asarray(fn(), dtype=float) - R)))
+            except Exception as ex:  # noqa: BLE001
+                j.fail("%s|%s|%s|raised-%s" % (PID, name, tag, type(ex).__name__), {"kind": "bridge", "R": R.tolist()}, cid)
+                continue
+            if d > TOL:
+                j.fail("%s|%s|%s|different-rotation" % (PID, name, tag), {"kind": "bridge", "R": R.tolist(), "distance": d}, cid)
+            else:
+                j.ok(cid)
+
+
 def valuations(j, rng, n):
     from spatialmath import SO2, SE2, SO3, SE3, UnitQuaternion, Twist3, Twist2
+    angle_set_bridges(j)
     angs = [0.0, 1e-12, 1e-9, 3e-9, 1e-6, 0.5, math.pi / 2, 2.5, math.pi - 1e-6, math.pi - 3e-9,
             math.pi - 1e-9, math.pi - 1e-12, math.pi]
     for k in range(n):
@@ -231,6 +264,19 @@ def valuations(j, rng, n):
             "SE3->UnitQuaternion->SE3": (lambda: UnitQuaternion(SE3(T, check=False)).SE3().A[:3, :3], R, 1.0),
         }
         routes["SE3->Twist3->SE3"] = (lambda: Twist3(SE3(T, check=False)).SE3().A, T, sc)
+        # unit quaternion -> exponential coordinates (twice the vector part of its logarithm) -> rotation, from either
+        # quaternion of the double cover
+        if 1e-6 < a < math.pi - 1e-6:
+            routes["UnitQuaternion->log->SO3.Exp"] = (lambda: SO3.Exp(2 * np.asarray(UnitQuaternion(SO3(R, check=False)).log().v)).A, R, 1.0)
+            routes["UnitQuaternion(-q)->log->SO3.Exp"] = (
+                lambda: SO3.Exp(2 * np.asarray(UnitQuaternion(-UnitQuaternion(SO3(R, check=False)).vec, norm=False, check=False).log().v)).A, R, 1.0)
+        # a twist times a pose is the product of the poses (mixed representations in one product)
+        Y3 = SE3(0.5, -1.0, 2.0) * SE3.Ry(0.4)
+        routes["Twist3*SE3"] = (lambda: (Twist3(SE3(T, check=False)) * Y3).A, T @ Y3.A, sc)
+        if k % 3 == 2:          # planar: rotation about z
+            X2p = SE2(t[0], t[1], a if k % 2 else -a)
+            Y2p = SE2(-1.0, 0.5, 0.7)
+            routes["Twist2*SE2"] = (lambda: (Twist2(X2p) * Y2p).A, (X2p * Y2p).A, max(1.0, abs(t[0]), abs(t[1])))
         for name, (fn, ref, s) in routes.items():
             cid = ("roundtrip", name, band)
             try:
